@@ -13,7 +13,9 @@ REGEXES = ["URL_IN_HTML_RE", "URL_IN_HTML_BINARY_RE", "SCRIPT_TAG_RE", "SCRIPT_T
 
 HREFS = ["http://lemonde.fr/a", "https://www.x.com/p?q=1&amp;r=2", "//cdn.x.com/s.js", "/rel/path", "rel.html", "#top", "javascript:void(0)", "mailto:a@b.c", "", " http://sp.com/a b ",
          "http://x.notatld/", "http://base.com/page", "http://é.fr/é", "HTTP://UP.COM/", "../up", "?q=only", "http://a.com/&#x2F;b", "http://dup.com/", "http://dup.com/", "ftp://f.com/x",
-         "http://127.0.0.1/x", "http://x.com/\xa0y"]
+         "http://127.0.0.1/x", "http://x.com/\xa0y",
+         # different spellings resolving to one url under each of the bases
+         "/rel.html", "./rel.html", "http://base.com/rel.html", "https://www.x.com/dir/rel.html", "http://lemonde.fr/rel.html", "/dir/rel.html", "rel.html#f", "rel.html"]
 
 
 def anchor(rng, href):
@@ -93,10 +95,22 @@ def run(res, tier, rng):
                 ok = (call(is_url, l, require_protocol=True, tld_aware=True, allow_spaces_in_path=True, only_http_https=True) is True
                       and should_follow_href(l) and l != cbase and re.match(r"(?i)https?://", l))
                 if c and ok:
-                    ok = any(call(canonicalize_url, call(U.urljoin, cbase, h) if not re.match(r"^[a-zA-Z]{0,64}:?//", h) else h, strip_fragment=sf) == l
+                    ok = any(call(canonicalize_url, call(U.urljoin, cbase, h) if (h.startswith("//") or not re.match(r"^[a-zA-Z]{0,64}:?//", h)) else h, strip_fragment=sf) == l
                              for h in s_urls if h and not isinstance(call(U.urljoin, cbase, h), Exc))
                 if not ok:
                     res.violation("property", "links_from_html yielded a link that is not followable / equals the base / is not canonical", input=dict(document=d, base=base, canonicalize=c), impl=l)
+            # a relative (incl. scheme-relative) href is resolved against the base: every followable href whose
+            # RFC 3986 resolution is an acceptable http(s) url other than the base must be among the links
+            if not c:
+                for h in s_urls:
+                    if not h or not should_follow_href(h):
+                        continue
+                    has_scheme = re.match(r"^[a-zA-Z][a-zA-Z0-9+.\-]*:", h) is not None
+                    r = h if has_scheme else call(U.urljoin, base, h)
+                    if isinstance(r, Exc) or r == base:
+                        continue
+                    if call(is_url, r, require_protocol=True, tld_aware=True, allow_spaces_in_path=True, only_http_https=True) is True and r not in links:
+                        res.violation("property", "a followable href is not yielded resolved against the base url", input=dict(document=d, base=base, href=h), impl=links, expected=r)
             if u and len(set(links)) != len(links):
                 res.violation("property", "links_from_html with unique=True yielded a link twice", input=dict(document=d, base=base), impl=links)
         # model
